@@ -25,59 +25,62 @@ FID = "dir with space/unit-é.st"
 
 def c1(rep, cov, tier):
     cfgs = ["Stmt2", "Types3", "Fb2", "Sfc3", "Config3"] if tier == "quick" else ["Stmt3", "Types4", "Fb3", "Prog3", "Func3", "Sfc4", "Config4"]
-    ds = gramcheck.derivations(cfgs, cov)
     rng = random.Random(vlib.SEED)
-    if tier == "quick":
-        ds = ds[::3]
-    cases, meta = [], []
-    for d in ds:
-        text, spans = gram.spell(d["toks"], rng, trivia=True, case=False)
-        cases.append({"id": len(cases), "text": text, "fid": FID, "tree": False})
-        meta.append((d, text, spans))
-    cases2 = [dict(c, tree=True) for c in cases]
-    res = vlib.harness("parse", cases2, per_case_timeout=30)
     n_ids = 0
-    for (d, text, spans), r in zip(meta, res):
-        if not r.get("ok"):
-            continue                          # C01's business
-        tb = text.encode("utf-8")
-        ids = r.get("ids", [])
-        have = {}
-        for orig, s, e, fid in ids:
-            have.setdefault((s, e), []).append((orig, fid))
-        labels = set(d["labs"])
-        replay = {"text": text, "fid": FID}
-        # every written identifier is present with its own span and the file id
-        for (cat, spelled, glue), sp in zip(d["toks"], spans):
-            if cat != "id" or sp is None:
-                continue
-            n_ids += 1
-            got = have.get(sp)
-            if not got:
-                rep.add("identifier-span-missing", labels=labels, detail={"identifier": spelled, "expected_span": sp,
-                        "library_ids": [i for i in ids if i[0].lower() == spelled.lower()]}, replay=replay)
-                break
-            if not any(o == spelled for o, _ in got):
-                rep.add("identifier-spelling-differs-from-span", labels=labels, detail={"identifier": spelled, "found": got}, replay=replay)
-                break
-            if not any(f == FID for _, f in got):
-                rep.add("identifier-file-id-wrong", labels=labels, detail={"identifier": spelled, "found": got}, replay=replay)
-                break
-        else:
-            # every library Id points at its own spelling
+    n_cases = 0
+    for ds in gramcheck.batches(cfgs, tier, cov):
+        if tier == "quick":
+            ds = ds[::3]
+        cases, meta = [], []
+        for d in ds:
+            text, spans = gram.spell(d["toks"], rng, trivia=True, case=False)
+            cases.append({"id": len(cases), "text": text, "fid": FID, "tree": False})
+            meta.append((d, text, spans))
+        cases2 = [dict(c, tree=True) for c in cases]
+        res = vlib.harness("parse", cases2, per_case_timeout=30)
+        for (d, text, spans), r in zip(meta, res):
+            if not r.get("ok"):
+                continue                          # C01's business
+            tb = text.encode("utf-8")
+            ids = r.get("ids", [])
+            have = {}
             for orig, s, e, fid in ids:
-                if orig == "" or orig.lower() in ELEMENTARY:
+                have.setdefault((s, e), []).append((orig, fid))
+            labels = set(d["labs"])
+            replay = {"text": text, "fid": FID}
+            # every written identifier is present with its own span and the file id
+            for (cat, spelled, glue), sp in zip(d["toks"], spans):
+                if cat != "id" or sp is None:
                     continue
-                if tb[s:e].decode("utf-8", "replace") != orig:
-                    rep.add("library-id-span-does-not-cover-its-spelling", labels=labels,
-                            detail={"id": orig, "span": [s, e], "source_slice": tb[s:e].decode("utf-8", "replace")}, replay=replay)
+                n_ids += 1
+                got = have.get(sp)
+                if not got:
+                    rep.add("identifier-span-missing", labels=labels, detail={"identifier": spelled, "expected_span": sp,
+                            "library_ids": [i for i in ids if i[0].lower() == spelled.lower()]}, replay=replay)
                     break
-                if fid != FID:
-                    rep.add("library-id-file-id-wrong", labels=labels, detail={"id": orig, "file_id": fid}, replay=replay)
+                if not any(o == spelled for o, _ in got):
+                    rep.add("identifier-spelling-differs-from-span", labels=labels, detail={"identifier": spelled, "found": got}, replay=replay)
                     break
-    cov["c1_sentences"] = len(cases)
+                if not any(f == FID for _, f in got):
+                    rep.add("identifier-file-id-wrong", labels=labels, detail={"identifier": spelled, "found": got}, replay=replay)
+                    break
+            else:
+                # every library Id points at its own spelling
+                for orig, s, e, fid in ids:
+                    if orig == "" or orig.lower() in ELEMENTARY:
+                        continue
+                    if tb[s:e].decode("utf-8", "replace") != orig:
+                        rep.add("library-id-span-does-not-cover-its-spelling", labels=labels,
+                                detail={"id": orig, "span": [s, e], "source_slice": tb[s:e].decode("utf-8", "replace")}, replay=replay)
+                        break
+                    if fid != FID:
+                        rep.add("library-id-file-id-wrong", labels=labels, detail={"id": orig, "file_id": fid}, replay=replay)
+                        break
+
+        n_cases += len(cases)
+    cov["c1_sentences"] = n_cases
     cov["c1_identifier_tokens_checked"] = n_ids
-    cov["traces_validated_against_impl"] += len(cases)
+    cov["traces_validated_against_impl"] += n_cases
 
 
 def inside(label, tb):
